@@ -45,6 +45,7 @@ class SimAllocator:
         self._free: List[int] = []
         self._pending: List[int] = []
         self.baseline_temp = _calibrate_temp_refcount()
+        self.baseline_pinned = _calibrate_pinned_refcount()
         self.reused_log: set = set()  # addresses that have been handed out more than once
         self.hooks_on_assign: List[Callable[[int, bool], None]] = []  # (addr, reused)
         self.n_calls = 0
@@ -64,7 +65,23 @@ class SimAllocator:
         if ent is not None:
             self._pending.append(addr)
 
+    def _sweep_pinned(self) -> None:
+        """Objects that cannot be weakly referenced (dict, list, tuple, ...) are kept alive by this table. Once the
+        table holds the ONLY reference, CPython would have freed the object when its last real owner let go:
+        the entry is dropped and the address becomes reusable."""
+        if not self._pinned:
+            return
+        _grc = sys.getrefcount
+        base = self.baseline_pinned
+        dead = [rid for rid, ent in self._pinned.items() if _grc(ent[0]) <= base]
+        for rid in dead:
+            _obj, addr = self._pinned.pop(rid)
+            self._pending.append(addr)
+            self.sim.probe("unreferenced_container_address_released")
+        del dead
+
     def flush(self) -> None:
+        self._sweep_pinned()
         if self._pending:
             self._pending.sort()
             self._free.extend(self._pending)
@@ -150,6 +167,12 @@ class SimAllocator:
 
     def live_count(self) -> int:
         return len(self._live)
+
+
+def _calibrate_pinned_refcount() -> int:
+    """Refcount seen by `sys.getrefcount(ent[0])` for an object whose only owner is the tuple `ent`."""
+    table = {1: ({}, 0)}
+    return max(sys.getrefcount(ent[0]) for _rid, ent in table.items())
 
 
 def _calibrate_temp_refcount() -> int:
